@@ -5,6 +5,7 @@ use crate::icept::IceptConfig;
 use crate::real::*;
 use crate::treespec::observe;
 use crate::report::Report;
+use crate::treespec::{Node, NodeKind, Tree};
 use crate::rng::Rng;
 use crate::treespec::GenOpts;
 use serde_json::json;
@@ -44,7 +45,27 @@ pub fn run(tier: &str, seed: u64, report: &mut Report) {
         let case_seed = seed.wrapping_mul(7919).wrapping_add(h as u64);
         let mut rng = Rng::new(case_seed);
         let go = GenOpts { max_nodes: 14, block: 16, cap: 8, ..Default::default() };
-        let steps = gen_history(&mut rng, max_steps, &go, true, true);
+        let mut steps = gen_history(&mut rng, max_steps, &go, true, true);
+        if h == 0 {
+            // directed: names that differ only in letter case next to a symlink (`/Current` a link, `/current` a
+            // directory with content; the same one level down), and a link whose name is a prefix of a directory's
+            let mk = |name: &str, kind: NodeKind, m: i64| Node { comps: if name.is_empty() { vec![] } else { name.split('/').map(|x| x.to_string()).collect() }, kind: kind.clone(), mode: if matches!(kind, NodeKind::Dir) { 0o755 } else if matches!(kind, NodeKind::Symlink(_)) { 0o777 } else { 0o644 }, mtime_ns: 1_610_000_000_000_000_000 + m, uid: 0, gid: 0 };
+            let mut t = Tree::default();
+            t.nodes.insert("/".into(), mk("", NodeKind::Dir, 0));
+            t.nodes.insert("/Current".into(), mk("Current", NodeKind::Symlink("releases/v2".into()), 1));
+            for d in ["current", "current/sub", "releases", "releases/V2", "releases/v2x"] {
+                t.nodes.insert(format!("/{d}"), mk(d, NodeKind::Dir, 2));
+            }
+            t.nodes.insert("/releases/v2".into(), mk("releases/v2", NodeKind::Symlink("../current".into()), 3));
+            for (i, f) in ["current/notes.txt", "current/sub/deep.txt", "releases/V2/bin", "releases/v2x/bin"].iter().enumerate() {
+                t.nodes.insert(format!("/{f}"), mk(f, NodeKind::File(format!("content of {f}").into_bytes()), 10 + i as i64));
+            }
+            let mut t2 = t.clone();
+            t2.nodes.insert("/current/notes.txt".into(), mk("current/notes.txt", NodeKind::File(b"second edition of the notes".to_vec()), 1_000_000_000));
+            let p = BackupParamsLite { hunk: 3, block: 16, cap: 8 };
+            steps = vec![Step::SetTree(t), Step::Backup(p.clone()), Step::SetTree(t2), Step::Backup(p.clone()), Step::Delete(vec![], false), Step::Backup(p)];
+            report.hit("directed:case-variant-names-beside-a-symlink");
+        }
         let case_id = json!({"case_seed": case_seed, "steps": history_json(&steps)});
         let o = HistOpts { restore_each: true, raw: false, sig: "hist" };
         let run = run_history(&steps, &o, report, &case_id);
